@@ -391,3 +391,20 @@ Theorem C12_source_smart_derivative_leftover : forall x y z,
   src_smart_ctor_R ROps x y z = rot_zyx x y z.
 Proof. exact source_smart_derivative_leftover. Qed.
 Print Assumptions C12_source_smart_derivative_leftover.
+(* ---- appended by stream S07: SYNTACTIC SOURCE TIE of LeastSquares<RealType>::computeEstimateCovariance (SrcTieLs.v / SrcTieC12Ls.v).
+   The member function regenerated on every run from the clang AST of src/regression/leastsquares/LeastSquares.cpp
+   (gen/SrcLs.v, translate/tr_C07_ls.py) leaves the object unchanged and returns the estimateSize_ x estimateSize_ matrix whose entries
+   are [ls_covariance] of the Ac_ and inverseJtJ_ members — the function C12_ls_covariance / C12_ls_covariance_* above are about — for
+   EVERY numeric dictionary.  [src_dims]: the shapes the class keeps (Ac_ square of size estimateSize_, inverseJtJ_ with as many columns). *)
+From Romea Require SrcEigenDyn SrcEigenDynFacts SrcTieLs SrcTieC12Ls.
+From Romea.gen Require SrcLs.
+Theorem C12_source_tie_ls_covariance :
+  forall (T : Type) (N : NumOps T) (var : T) (s : SrcLs.src_ls (T:=T)), SrcTieLs.src_dims s ->
+  fst (SrcLs.src_computeEstimateCovariance N var s) = s /\
+  SrcEigenDynFacts.dm_shape (SrcLs.estimateSize_ s) (SrcLs.estimateSize_ s) (snd (SrcLs.src_computeEstimateCovariance N var s)) /\
+  forall i j, (i < SrcLs.estimateSize_ s)%nat -> (j < SrcLs.estimateSize_ s)%nat ->
+    SrcEigenDyn.dm_get N (snd (SrcLs.src_computeEstimateCovariance N var s)) i j =
+    ls_covariance N (SrcLs.estimateSize_ s) (LinAlgBModel.mget N (SrcEigenDyn.dm_rows (SrcLs.Ac_ s)))
+                  (LinAlgBModel.mget N (SrcEigenDyn.dm_rows (SrcLs.inverseJtJ_ s))) var i j.
+Proof. exact (fun T N => SrcTieC12Ls.tie_covariance_entries N). Qed.
+Print Assumptions C12_source_tie_ls_covariance.
